@@ -407,6 +407,11 @@ func (x *XRefParser) parseXRefStream() (*XRefTable, error) {
 // The w array specifies the byte widths of the three fields (type, field1, field2).
 // Returns the entry, number of bytes consumed, and any error.
 func (x *XRefParser) parseXRefStreamEntry(data []byte, w []int) (*XRefEntry, int, error) {
+	// The widths come from the file: each must fit the data on its own, otherwise their sum
+	// could wrap around and pass the test below.
+	if w[0] > len(data) || w[1] > len(data) || w[2] > len(data) {
+		return nil, 0, fmt.Errorf("insufficient data for xref entry (field widths %v, have %d)", w, len(data))
+	}
 	totalWidth := w[0] + w[1] + w[2]
 	if len(data) < totalWidth {
 		return nil, 0, fmt.Errorf("insufficient data for xref entry (need %d, have %d)", totalWidth, len(data))
